@@ -229,19 +229,20 @@ static void entropy_bytes(void *buf, size_t n) {
 void std::random_device::_M_init(const std::string &) { }
 void std::random_device::_M_fini() { }
 std::random_device::result_type std::random_device::_M_getval() {
-    if (!g_entropy_on) { unsigned v = 0; if (rsys(SYS_getrandom, (long) &v, sizeof v, 0) != (long) sizeof v) v = (unsigned) rsys(SYS_getpid) * 2654435761u; return v; }
+    // before a run has seeded its stream (static initialisers of the library, the zygote) the source is a fixed stream as well: entropy drawn
+    // at load time is then the same in every zygote, so a generator that is seeded when the library is loaded - and inherited by every
+    // process forked afterwards - behaves the same way in every execution of a seed
     return nix_verif_entropy();
 }
 double std::random_device::_M_getentropy() const noexcept { return 32.0; }
 
 extern "C" ssize_t getrandom(void *buf, size_t n, unsigned int flags) {
-    if (!g_entropy_on) return (ssize_t) rsys(SYS_getrandom, (long) buf, (long) n, (long) flags);
+    (void) flags;
     entropy_bytes(buf, n);
     return (ssize_t) n;
 }
 extern "C" int getentropy(void *buf, size_t n) {
     if (n > 256) { errno = EIO; return -1; }
-    if (!g_entropy_on) return rsys(SYS_getrandom, (long) buf, (long) n, 0) == (long) n ? 0 : -1;
     entropy_bytes(buf, n);
     return 0;
 }
@@ -284,7 +285,7 @@ extern "C" int open(const char *path, int flags, ...) {
     if (flags & (O_CREAT | O_TMPFILE)) {
         va_list ap; va_start(ap, flags); mode = (mode_t) va_arg(ap, int); va_end(ap);
     }
-    if (g_entropy_on && path && (!strcmp(path, "/dev/urandom") || !strcmp(path, "/dev/random"))) {
+    if (path && (!strcmp(path, "/dev/urandom") || !strcmp(path, "/dev/random"))) {
         long mfd = rsys(SYS_memfd_create, (long) "simulated-entropy", 0);
         if (mfd >= 0) {
             unsigned char blk[4096];
